@@ -15,7 +15,7 @@ def generate(ctx):
     if p.returncode != 0:
         print(p.stdout)
         ctx["broken"]("yieldgen does not build")
-    p = subprocess.run([tool, src, out, ctx["modpath"] + "/verifh/vsched", ctx["modpath"] + "/verifh/vsync"],
+    p = subprocess.run([tool, src, out, ctx["modpath"] + "/verifh/vsched", ctx["modpath"] + "/verifh/vsync", "returns"],
                        env=env, stdout=subprocess.PIPE, stderr=subprocess.STDOUT, text=True)
     if p.returncode != 0:
         print(p.stdout)
